@@ -24,8 +24,10 @@ def run(ctx):
     P = ctx.P
     fks = ["SignDecryptionShare<C>::verify", "SignCryptCiphertext<C>::decrypt_with_shares", "SignCryptDecryptionKey<C>::decrypt", "SignCryptCiphertext<C>::create_decryption_share"]
     fns = [f for f in (ctx.need_fn("E2", k) for k in fks) if f is not None]
-    n, _ = check_arm_purity(ctx, "E2-A", P, fns)
-    ctx.floor("E2-A", "scheme dispatch switches in threshold signcryption", n, 3)
+    from .common import with_mappers, check_dispatching
+
+    check_arm_purity(ctx, "E2-A", P, with_mappers(P, fns))
+    check_dispatching(ctx, "E2-A", P, [f for f in fns if f.key != "SignCryptCiphertext<C>::create_decryption_share"])
     check_tag_control_dependence(ctx, "E2-B", P)
     f = P.fns.get("SignDecryptionShare<C>::verify")
     if f is not None:
@@ -39,12 +41,10 @@ def run(ctx):
             names = [(r[0].a[1] + r[1]) if r else None for r in roots]
             dst_ok = any(t.op == "assoc" for t in subterms(a[5]))
             ctx.ob("E6.share-verify", f.key, all(chk) and names == ["sig.u", "sig.v", "sig.w"] and dst_ok, "verify_share(checked(self), checked(pks), sig.u, sig.v, sig.w, tag-by-scheme): checked=%s fields=%s" % (chk, names), where=where(f, s.bb))
-        for b, d in ev.switch.items():
-            v = G.variant_of_switch(P, f, b, 0)
-            if v and v[0] == "SignatureSchemes":
-                root = F.projection_root(strip_sites(d).a[0]) if d.op == "discr" else None
-                who = (root[0].a[1] + root[1]) if root else None
-                ctx.ob("E2.own-scheme", f.key, who == "sig.scheme", "share verification selects the tag by `%s` (want the ciphertext's scheme)" % who, where=where(f, b))
+        from .common import scheme_roots
+
+        roots = scheme_roots(P, f)
+        ctx.ob("E2.own-scheme", f.key, bool(roots) and all(r == "sig.scheme" for r in roots), "share verification selects the tag by %s (want the ciphertext's scheme `sig.scheme`)" % roots, where=where(f))
         oks = R.ok_blocks(f)
         good = bool(oks)
         for b in oks:
